@@ -137,6 +137,14 @@ def rcell(rng, typ, fillgiven, tfill, missing):
         r = rng.random()
         if r < 0.15 and typ != "boolean" and tfill is not None:
             v = tfill
+        elif r < 0.27 and typ in ("float", "complex") and tfill is not None and not cmath.isnan(tfill) and not cmath.isinf(tfill):
+            # close to, but different from, the fill: must survive as a value (exact comparison with the fill)
+            base = tfill.real if typ == "complex" else tfill
+            near = [np.nextafter(base, np.inf), np.nextafter(base, -np.inf), base + 1e-9, base * (1 + 1e-7) + 5e-324, base - 1e-12]
+            x = float(near[int(rng.integers(len(near)))])
+            v = complex(x, tfill.imag) if typ == "complex" else x
+        elif r < 0.30 and typ == "integer" and tfill is not None:
+            v = int(tfill) + int(rng.choice([-1, 1]))
         elif typ == "string":
             v = str(rng.choice(["", "---", "a,b", 'he said "hi"', "it's", "x\ty".replace("\t", " "), "# c", "- a", "[1]", "a  b", "é✓", "null", "~", "yes"])) \
                 if r < 0.4 else rstr(rng, 10)
